@@ -172,8 +172,93 @@ def main_c35(run):
                       extra={"exhaustive": True})
 
 
+# ---------------------------------------------------------------- C36
+def main_c36(run):
+    import copy
+    import hy
+    from hy.compiler import hy_compile
+    from ..engines.models import model_diff
+    rng = random.Random(run.seed)
+    r = tlc.run("HyExpand", tlc.cfg(invariants=["OneStepOnly", "FixpointHeadNotMacro", "FixIsIteratedStep",
+                                                "ResultMacroLeftAlone", "Export"]), run.work, workers=8, label="expand")
+    if r.violated:
+        raise MachineryError(f"HyExpand: {r.violated} violated on the specification")
+    run.add_tlc(r, "HyExpand: every macro environment over m1..m3 x every start head")
+    envs = r.ex("ENV")
+    run.log(f"TLC: {len(envs)} (environment, start) pairs")
+
+    def form_text(f):
+        if f["shape"] == "int":
+            return "5"
+        if f["shape"] == "ifform":
+            return "(if 7 (do) None)"
+        return "(if 7 8 9)" if f["h"] == "if" else f"({f['h']} 7)"
+    n = 0
+    for k, e in enumerate(envs):
+        name = f"hyv_expand_{k}"
+        mod = types.ModuleType(name)
+        sys.modules[name] = mod
+        try:
+            defs = []
+            for m in ("m3", "m2", "m1"):
+                t = e["env"][m]
+                body = "5" if t == "5" else "`(if ~x 8 9)" if t == "if" else f"`({t} ~x)"
+                defs.append(f"(defmacro {m} [x] {body})")
+            text = "\n".join(defs) + "\n(defn f [x] x)"
+            exec(compile(hy_compile(hy.read_many(text), mod), name, "exec"), mod.__dict__)
+            for variant in ("module", "extra", "local"):
+                src = hy.read("(if 7 8 9)" if e["start"] == "if" else f"({e['start']} 7)")
+                before = copy.deepcopy(src)
+                kw = {"module": mod}
+                if variant == "extra":
+                    # the same macros supplied through the `macros` argument of another module
+                    kw = {"module": types.ModuleType(name + "_x"), "macros": dict(mod._hy_macros)}
+                    sys.modules[name + "_x"] = kw["module"]
+                one = hy.macroexpand_1(src, **kw)
+                allx = hy.macroexpand(src, **kw)
+                run.case((json.dumps(e["env"], sort_keys=True), e["start"], variant))
+                if model_diff(before, src):
+                    run.violation(f"mutated:{k}:{variant}", f"macroexpand mutated its input ({e['start']} 7) in env {e['env']}",
+                                  {"env": e})
+                for got, want, which in ((one, e["one"], "macroexpand-1"), (allx, e["all"], "macroexpand")):
+                    wm = hy.read(form_text(want))
+                    d = model_diff(hy.as_model(wm), hy.as_model(got))
+                    if d:
+                        run.violation(f"{which}:{json.dumps(e['env'], sort_keys=True)}:{e['start']}:{variant}",
+                                      f"hy.{which} of ({e['start']} 7) with macros {e['env']} [{variant}] gives "
+                                      f"{hy.repr(got)}, expected {form_text(want)}: {d}", {"env": e, "variant": variant})
+                    else:
+                        n += 1
+                        run.cov["traces_validated_against_impl"] += 1
+                if variant == "extra":
+                    sys.modules.pop(name + "_x", None)
+                if variant == "local":
+                    break
+        finally:
+            sys.modules.pop(name, None)
+    # local macros are invisible unless passed: (local-macros)
+    text = "(defn g [] (defmacro lm [x] `(f ~x)) [(hy.macroexpand-1 '(lm 7)) (hy.macroexpand-1 '(lm 7) :macros (local-macros))]) (defn f [x] x) (setv out (g))"
+    mod = types.ModuleType("hyv_expand_local")
+    sys.modules["hyv_expand_local"] = mod
+    try:
+        exec(compile(hy_compile(hy.read_many(text), mod), "hyv_expand_local", "exec"), mod.__dict__)
+        a, b = mod.out
+        if hy.repr(a) != "'(lm 7)" or hy.repr(b) != "'(f 7)":
+            run.violation("local-macros", f"local macro expansion through hy.macroexpand-1: {hy.repr(a)} / {hy.repr(b)}", {})
+    finally:
+        sys.modules.pop("hyv_expand_local", None)
+    run.sample({"env": envs[5]["env"], "start": envs[5]["start"], "one": envs[5]["one"], "all": envs[5]["all"]})
+    return run.finish("model_checking",
+                      "every macro environment over three user macros (each expanding to another user macro, the Hy-level "
+                      "core macro `when`, the result-producing core form `if`, a function call or an integer) x every "
+                      "start form; hy.macroexpand-1 / hy.macroexpand results compared with HyExpand (checked by TLC: one "
+                      "step exactly, fixpoint head is not a macro, fixpoint = iterated step), with module macros and with "
+                      "the macros argument; input model compared before and after",
+                      extra={"exhaustive": True})
+
+
 def main(run):
-    return {"C35": main_c35}[run.pid](run)
+    return {"C35": main_c35, "C36": main_c36}[run.pid](run)
 
 
 def replay(run, path):
